@@ -141,15 +141,18 @@ impl MainState {
                     let ghost chans = user.channels@;
                     let ghost mut done: Set<String> = Set::empty();
                     let ghost new_src = conn_state.user_state.source;
+                    // the loop only renames inside the channels: everything else is as it was when the loop started (whatever the
+                    // statements before it already did - the invariant does not depend on their order)
+                    let ghost pre = *state;
                     proof {
                         assert(old_nick == a && nick_str == b);
                         assert(user == (User { source: new_src, ..o.users@[a] }));
                     }
 //@loop ~for ch in user\.channels\.iter\(\) iter=it1
                         invariant
-                            state.users@ == o.users@.remove(a),
+                            state.users@ == pre.users@,
                             state.channels@.dom() == o.channels@.dom(),
-                            state_rest_same(o, *state),
+                            state_rest_same(pre, *state),
                             it1.seq().no_duplicates(),
                             it1.seq().len() == chans.len(),
                             forall|k: String| chans.contains(k) ==> exists|i: int| 0 <= i < it1.seq().len() && *#[trigger] it1.seq()[i] == k,
